@@ -10,6 +10,7 @@ package benchunit
 // rational). The constants below were computed in exact rational arithmetic.
 
 import (
+	"strings"
 	"math"
 	"strconv"
 )
@@ -177,5 +178,13 @@ func H10History() {
 	vndAssert(b4 == b3, "scale-independent-of-earlier-calls")
 	if rel == 1 {
 		vndAssert(d3 == d1 && b3 == b1, "scale-independent-of-earlier-calls")
+	}
+	// whatever was asked before, the answer belongs to the class asked for: IEC prefixes
+	// (or none) and no fractional scale for binary, SI prefixes for decimal
+	for _, b := range []Scaler{b1, b2, b3, b4} {
+		vndAssert((b.Prefix == "" || strings.HasSuffix(b.Prefix, "i")) && b.Factor >= 1, "binary-scale-has-an-iec-prefix-or-none")
+	}
+	for _, d := range []Scaler{d1, d2, d3} {
+		vndAssert(!strings.HasSuffix(d.Prefix, "i"), "decimal-scale-has-an-si-prefix")
 	}
 }
